@@ -238,6 +238,9 @@ def unop (s : String) : Option History.Op :=
   -- `nw:<t>`: the client builds ANOTHER wallet object over the same root node (network flag t) and then asks the
   -- first wallet for its root key: in the model constructing an object is not a request, so this is `rootKey`
   | ["nw", _] => some .rootKey
+  -- `cl:<g>`: the client closes an address generator it no longer uses (the histories never touch it again) and then
+  -- asks for the root key: closing a generator is not a request to the wallet
+  | ["cl", _] => some .rootKey
   | _ => none
 
 def outS : History.Out → String
